@@ -14,18 +14,36 @@ from harness.props import xpath_common as X
 
 MANIFEST = dict(
     category="proof",
-    technique="Lean 4 theorems over a hand-written model of the xpath engine + differential correspondence with the implementation",
-    text="Lean (for every tree, every string, every fuel): get returns what item access returns and the caller's default "
-         "exactly when item access raises one of the funnelled classes or a plain missing key (C04_default_iff_miss), first is "
-         "get with single-match unwrapping (C04_first_eq), '?'-prefixed item access never raises a funnelled class and yields "
-         "'' on a miss (C04_qmark, C04_qmark_miss_is_empty). Totality and purity are stated at full strength "
-         "(C04_get_total_stmt, C04_pure_stmt) and refuted on the pinned tree by counter-example theorems for the new() step "
-         "(C04_new_writes_cex, C04_new_keyerror_cex = known finding C04-a); outside that class they are carried by the "
-         "correspondence streams and the evaluator, not by a theorem. The model of every lookup entry point (dict and list "
-         "roots) is compared with the real code on token soup over the full xpath alphabet and on misses derived from real "
-         "paths; the statement is executed on the implementation (no exception from get/first, default iff item access raises, "
-         "only the five allowed classes from item access, tree unchanged).",
-    note="known findings: a '[new()]' step inside a lookup (KeyError escapes / a scalar is rewritten into a list).",
+    technique="Lean 4 theorems over a hand-written model of the xpath engine (induction on the fuel over the whole resolver) + "
+              "differential correspondence with the implementation",
+    text="Lean, for every tree, every string (well-formed or not), every fuel, dict and list roots. "
+         "(1) Equations, no hypothesis: get returns what item access returns and the caller's default exactly when item access "
+         "raises one of the funnelled classes or a plain missing key (C04_default_iff_miss); first is get with single-match "
+         "unwrapping (C04_first_eq); '?'-prefixed item access never raises a funnelled class and yields '' on a miss (C04_qmark, "
+         "C04_qmark_miss_is_empty). "
+         "(2) Purity and totality, proved under the hypothesis that the text 'new()' occurs neither in the path (Safe) nor in a "
+         "dict key of the tree (SafeTree): the resolver n0dict._find / n0list._find, all branches ('..', '*', '[*]', conditions, "
+         "text(), pure index, implicit fan-out over lists), returns the root it was given and fails only with ValueError, "
+         "IndexError, TypeError, SyntaxError or the model-only outcomes OutOfFuel/Unsupported - never KeyError or AttributeError "
+         "(C04_findD_pure_partial, C04_findD_errclass_partial, C04_findL_partial; Proofs/XPathPureFind.lean find_post, "
+         "findL_post: every synthesised token is again free of 'new()', so the only writing branch is unreachable); hence item "
+         "access, get and first return the tree unchanged (C04_pure_partial), get and first return normally unless the model "
+         "itself gives OutOfFuel/Unsupported (C04_get_total_partial), and item access raises only "
+         "KeyError/IndexError/ValueError/TypeError/SyntaxError, nothing at all for a '?' path (C04_getitem_errclass_partial). "
+         "(3) Full-strength statements kept visible and refuted on the pinned tree: C04_get_total_stmt, C04_pure_stmt, with "
+         "counter-example theorems for a new() step (C04_new_writes_cex, C04_new_keyerror_cex = known finding C04-a) and for a "
+         "dict key literally named '*' (C04_star_key_diverges_cex: get('*/x') runs out of fuel for every fuel; the implementation "
+         "raises RecursionError = finding C04-d). "
+         "Not proved: fuel adequacy (C04_fuel_enough_stmt: on plain-key trees some fuel suffices), so OutOfFuel is excluded only "
+         "by the correspondence streams; inputs the model answers Unsupported for (floats in text() conditions, '%' in quoted "
+         "values, non-ASCII digits) and paths containing 'new()' are differential only. "
+         "The model of every lookup entry point (dict and list roots) is compared with the real code on token soup over the "
+         "full xpath alphabet and on misses derived from real paths; the statement is executed on the implementation (no "
+         "exception from get/first, default iff item access raises, only the five allowed classes from item access, tree "
+         "unchanged).",
+    note="known findings: a '[new()]' step inside a lookup (KeyError escapes / a scalar is rewritten into a list); a dict key "
+         "named '*' (or '..' below a '*' step) makes get('*/x') recurse until RecursionError (trees of the harness have "
+         "plain-name keys, so the streams do not meet it).",
     design_ref="5/C04",
 )
 
